@@ -6,13 +6,14 @@ import (
 )
 
 const (
-	declVF   = "declare void @vf()"
-	declF1   = "declare i32 @f1(i32)"
-	declF2   = "declare i32 @f2(i32, float)"
-	declFV   = "declare i32 @fv(i32, ...)"
-	declPers = "declare i32 @__gxx_personality_v0(...)"
-	declSEH  = "declare i32 @__CxxFrameHandler3(...)"
-	declTI   = "@TI = external constant i8"
+	declVF    = "declare void @vf()"
+	declF1    = "declare i32 @f1(i32)"
+	declF2    = "declare i32 @f2(i32, float)"
+	declFV    = "declare i32 @fv(i32, ...)"
+	declFVdef = "define i32 @fvdef(i32 %a, ...) {\n  ret i32 %a\n}"
+	declPers  = "declare i32 @__gxx_personality_v0(...)"
+	declSEH   = "declare i32 @__CxxFrameHandler3(...)"
+	declTI    = "@TI = external constant i8"
 )
 
 var callConvs = []string{"", "ccc ", "cc 0 ", "cc 1 ", "cc 8 ", "fastcc ", "coldcc ", "cc 10 ", "cc 11 ", "cc 99 ", "webkit_jscc ", "swiftcc ", "x86_stdcallcc ", "x86_64_sysvcc ", "win64cc ", "cc 1023 ", "tailcc ", "swifttailcc ", "cfguard_checkcc ", "preserve_mostcc ", "x86_vectorcallcc ", "arm_aapcs_vfpcc ", "spir_func "}
@@ -22,7 +23,7 @@ func callSite(f *Frag, kw string) (text string, retType string) {
 	cc := f.Alt("callconv", callConvs...)
 	retAttrs := f.Alt("ret-attrs", "", "zeroext ", "signext ", "inreg ", "noundef ")
 	as := f.Opt("addrspace", "addrspace(0) ")
-	form := f.N("callee", 6)
+	form := f.N("callee", 9)
 	var callee, args, ty string
 	retType = "i32"
 	a := f.Param("i32")
@@ -47,8 +48,17 @@ func callSite(f *Frag, kw string) (text string, retType string) {
 	case 5:
 		f.Need(declF1)
 		ty, callee, args = "i32 (i32)", "@f1", "i32 "+a
+	case 6: // variadic callee that is not a function: a function pointer held in a local
+		fp := f.Param("i32 (i32, ...)*")
+		ty, callee, args = "i32 (i32, ...)", fp, "i32 "+a+", i32 7, float "+x
+	case 7: // variadic callee reached through a constant expression
+		f.Need(declFV)
+		ty, callee, args = "i32 (i32, ...)", "bitcast (i32 (i32, ...)* @fv to i32 (i32, ...)*)", "i32 "+a+", float "+x
+	case 8: // variadic callee reached through an alias
+		f.Need(declFVdef, "@fvalias = alias i32 (i32, ...), i32 (i32, ...)* @fvdef")
+		ty, callee, args = "i32 (i32, ...)", "@fvalias", "i32 "+a+", i32 7"
 	}
-	if cc != "" && (form != 4) {
+	if cc != "" && (form != 4 && form != 6) {
 		// a calling convention on the call must match the callee: use an indirect callee.
 		fp := f.Param("i32 (i32)*")
 		ty, callee, args, retType = "i32", fp, "i32 "+a, "i32"
